@@ -301,6 +301,14 @@ def run(tier, seed, which="C05"):
     rng = random.Random(seed)
     kv.build("san")
     table_check(V, wd)
+    # "no hang" on the design: the bisecting k-means recursion terminates (liveness under weak fairness); the twin whose
+    # fallback looks at one cluster only does not
+    rb = kv.run_tlc("Bisect", "MC_Bisect.cfg", wd, workers=1, timeout=600, name="bisect")
+    V.add_tlc(rb)
+    if not rb.ok:
+        raise kv.Broken("MC_Bisect fails: %s" % rb.errors[:2])
+    if kv.run_tlc("Bisect", "MC_Bisect_twin.cfg", wd, workers=1, timeout=600, name="bisect_twin").ok:
+        raise kv.Broken("MC_Bisect twin terminates: the liveness property is vacuous")
     # (b) TLC-generated files
     r, all2 = tlc_files(wd, "MC_FileGen_all2.cfg")
     V.add_tlc(r)
@@ -344,7 +352,8 @@ def run(tier, seed, which="C05"):
     def many(k):
         p = os.path.join(edir, "m%d.fa" % k)
         open(p, "wb").write(extra[k]["bytes"])
-        lines = ["level 0", "note F%d" % k, "read 0 %s" % p, "run 0 4 5 -1 -1 -1"]
+        comp = not isinstance(extra[k]["many"], int)
+        lines = ["level 1" if comp else "level 0", "note F%d" % k, "read 0 %s" % p, "run 0 4 5 -1 -1 -1"]
         for f in ("fasta", "msf", "clu"):
             lines.append("write 0 %s %s" % (f, os.path.join(edir, "m%d.%s" % (k, f))))
         lines += ["free 0", "note done%d" % k]
@@ -355,9 +364,20 @@ def run(tier, seed, which="C05"):
         tp, rc, err = kv.run_kvdrive("\n".join(lines) + "\n", edir, "m%d" % k, variant="san", leaks=True, timeout=budget, hang_is_verdict=mode)
         if rc == 124:
             hung[0] += 1
-        return k, rc, err
-    for k, rc, err in kv.pmap(many, range(len(extra)), workers=8):
+        bis = None
+        if comp:
+            # the k-means recursion of these compositions against Bisect.tla (non-empty parts that add up, every node finished)
+            bp = os.path.join(edir, "m%d.bisect.ndjson" % k)
+            kv.write_ndjson(bp, [e for e in kv.read_trace(tp) if e.get("e") in ("KmNode", "KmKids", "KmDone", "RunEnd")])
+            bis = kv.run_tlc("BisectTrace", "BisectTrace.cfg", edir, trace=bp, timeout=600, heap="2g", name="bisect%d" % k)
+        return k, rc, err, bis
+    for k, rc, err, bis in kv.pmap(many, range(len(extra)), workers=8):
         V.case("many:%s" % extra[k]["many"], True)
+        if bis is not None:
+            V.add_tlc(bis)
+            V.extra["kmeans_splits_checked_against_Bisect"] = V.extra.get("kmeans_splits_checked_against_Bisect", 0) + sum(1 for x in bis.prints if x.startswith('<<"KVSPLIT"'))
+            for (ln, sid, items) in bis.divs:
+                V.divergence("%s: k-means recursion event %d: %s" % (extra[k]["many"], ln, ",".join(sorted(items))))
         if rc != 0 or SAN_PAT.search(err):
             first = [x for x in err.splitlines() if "ERROR: " in x or "runtime error" in x]
             mm = re.search(r"(msa_io|msa_op|msa_alloc|alphabet|bpm|aln_\w+)\.c:(\d+)", err)
